@@ -59,7 +59,12 @@ def random_sim_case(rng, kind="sim", small=True, algos=ALGOS, allow_pp_single=Fa
                                        mem_ref=ram * rng.choice(levels), maxn=rng.choice([3, 6, 12]))
             arrivals.setdefault(str(t), []).append(spec)
         wl = {"type": "script", "arrivals": arrivals}
-    return {"kind": kind, "algo": algo, "params": params, "workload": wl}
+    case = {"kind": kind, "algo": algo, "params": params, "workload": wl}
+    if rng.random() < 0.25:
+        # a second simulation (same policy, colliding pipeline ids, its own executor / scheduler / generator) is
+        # created at this tick and stepped in lock-step from then on
+        case["foreign_from"] = rng.choice([0, 3, 10])
+    return case
 
 
 def regression_case(i):
@@ -145,8 +150,14 @@ def run_sim_case(case, mon, prop, extra_monitors=None, nontrivial=None):
     from ..execworld import ANY
     mons = monitors_for(prop, case) + list(extra_monitors or [])
     case = dict(case)
-    h = Harness(case["params"], case["algo"], gen.strip(case["workload"]), mons)
+    h = Harness(case["params"], case["algo"], gen.strip(case["workload"]), mons, foreign_from=case.get("foreign_from"))
     h.run()
+    if h.foreign_error is not None:
+        # the second simulation is a valid configuration: it has to run, whatever the observed run does next to it
+        mon.fail("concurrent-simulation-raised", "a second, independent simulation stepped in the same process raised: "
+                 + h.foreign_error.strip().splitlines()[-1], algo=case["algo"], traceback=h.foreign_error)
+    if h.foreign is not None:
+        mon.count("sim_runs_next_to_a_second_live_simulation")
     if h.monitor_error is not None:
         mon.error("monitor failed (no verdict from this run): " + h.monitor_error)
         return h
@@ -233,7 +244,10 @@ def preemption_case(rng, algo="priority", oom=False, identical=False):
                                 mem_ref=job_ram * 0.1, maxn=4, nseg_max=1))
     params = {"duration": rng.choice([150, 300, 500]) / tps, "ticks_per_second": tps, "num_pools": pools, "cpus_per_pool": cpus,
               "ram_gb_per_pool": R, "multi_operator_containers": True, "allow_memory_overcommit": False}
-    return {"kind": "sim", "algo": algo, "params": params, "workload": {"type": "script", "arrivals": arrivals}, "_preempt": True}
+    case = {"kind": "sim", "algo": algo, "params": params, "workload": {"type": "script", "arrivals": arrivals}, "_preempt": True}
+    if rng.random() < 0.3:
+        case["foreign_from"] = rng.choice([0, 2, 5])        # a second live simulation next to this one
+    return case
 
 
 def long_sim_case(rng, algos=ALGOS, ticks=None):
